@@ -159,6 +159,16 @@ Section JWT.
     rewrite andb_true_iff, !negb_true_iff. destruct v; cbn; intuition congruence.
   Qed.
 
+  (* the whole answer of the gate (not only the decision) is the same from every counter state *)
+  Lemma authorize_result_history_irrelevant : forall rs rs' h h' c now cr,
+    snd (authorize_rs mac rs h c now cr) = snd (authorize_rs mac rs' h' c now cr).
+  Proof.
+    intros. unfold authorize_rs. destruct cr as [| |t]; try reflexivity.
+    pose proof (parse_token_history_irrelevant rs rs' h h' c now t) as P.
+    destruct (parse_token mac rs h c now t) as [h1 ok1]. destruct (parse_token mac rs' h' c now t) as [h2 ok2].
+    cbn [snd] in P. subst ok2. destruct ok1; reflexivity.
+  Qed.
+
   (* ---- the error ParseToken reports ------------------------------------- *)
 
   Lemma err1_zero : forall now k cr,
